@@ -20,6 +20,8 @@ type VerifNode struct {
 	// fingerprint) -> certificate fingerprints of the edges in the set
 	Parents  map[string][]string
 	Children map[string][]string
+	// rootEdges: certificate fingerprints of the edges in the set
+	Roots []string
 }
 
 // VerifEdge is a dump of one GraphEdge.
@@ -75,6 +77,9 @@ func VerifDump(g *Graph) *VerifGraphDump {
 		}
 		for k, es := range n.childrenBySubjectAndKey {
 			vn.Children[string(k)] = verifEdgeSet(es)
+		}
+		if n.rootEdges != nil {
+			vn.Roots = verifEdgeSet(n.rootEdges)
 		}
 		d.Nodes = append(d.Nodes, vn)
 	}
